@@ -102,7 +102,7 @@ class FastDiagPoissonSolver3D:
         poisson_matrix_z: np.ndarray,
     ) -> None:
         """Compute spectral decomposition (eigenvalue and vectors) of the matrices."""
-        eig_vals_x, eig_vecs_x = la.eig(poisson_matrix_x)
+        eig_vals_x, eig_vecs_x = la.eigh(poisson_matrix_x)
         # sort eigenvalues in decreasing order
         idx = eig_vals_x.argsort()[::-1]
         eig_vals_x[...] = eig_vals_x[idx]
@@ -110,7 +110,7 @@ class FastDiagPoissonSolver3D:
         self.eig_vecs_x = eig_vecs_x
         self.inv_of_eig_vecs_x = la.inv(eig_vecs_x)
 
-        eig_vals_y, eig_vecs_y = la.eig(poisson_matrix_y)
+        eig_vals_y, eig_vecs_y = la.eigh(poisson_matrix_y)
         # sort eigenvalues in decreasing order
         idx = eig_vals_y.argsort()[::-1]
         eig_vals_y[...] = eig_vals_y[idx]
@@ -118,7 +118,7 @@ class FastDiagPoissonSolver3D:
         self.eig_vecs_y = eig_vecs_y
         self.inv_of_eig_vecs_y = la.inv(eig_vecs_y)
 
-        eig_vals_z, eig_vecs_z = la.eig(poisson_matrix_z)
+        eig_vals_z, eig_vecs_z = la.eigh(poisson_matrix_z)
         # sort eigenvalues in decreasing order
         idx = eig_vals_z.argsort()[::-1]
         eig_vals_z[...] = eig_vals_z[idx]
